@@ -1,7 +1,17 @@
 import props
 
+
+
+def runs(tier, seed, replay):
+    if replay:
+        return props.replay_run(replay)
+    base = props.simple("c05", 150, 2500)(tier, seed, None)
+    # CLI glue (the binary's subcommands against the library; see bin/propcfg/C02.py)
+    return base + [{"args": ["cli", "--seed", str(seed), "--tier", tier, "--count", "1500" if tier == "thorough" else "150"]}]
+
+
 CONFIG = {
-    "runs": props.simple("c05", 150, 2500),
+    "runs": runs,
     "status": "full under no_dead, refuted without it (known finding K7): "
               "C05_core_sound[_WF] (the syntactic core is sound for every WF circuit), C05_core_syntactic (exact under WFQ + no_dead: "
               "In l (calculate_core C n) <-> every model contains l), C05_core_dead_nil_correct; "
